@@ -634,6 +634,21 @@ def check_keep_override(ctx):
            'or commented out')
 
 
+def _names_of(e):
+    """text of a mapping behind set()/frozenset()/list()/tuple()/sorted()
+    wrappers and .keys()"""
+    while True:
+        if isinstance(e, ast.Call) and isinstance(e.func, ast.Name) and \
+                e.func.id in ('set', 'frozenset', 'list', 'tuple',
+                              'sorted') and len(e.args) == 1:
+            e = e.args[0]
+        elif isinstance(e, ast.Call) and method_call(e, 'keys') and \
+                not e.args:
+            e = method_call(e)[0]
+        else:
+            return U(e)
+
+
 def _dict_merge_form(prog, t, en, emitted):
     """effective = dict(E.file_rules); for n, d in E.registered_rules
     .items(): effective.setdefault(n, d); output <- effective.items()"""
@@ -759,7 +774,7 @@ def check_merge(ctx):
                 x = cd.expr
                 if cd.kind == 'test' and isinstance(x, ast.Compare) and \
                         isinstance(x.ops[0], ast.In) and U(x.left) == \
-                        '%s[0]' % sym and U(en.expand(
+                        '%s[0]' % sym and _names_of(en.expand(
                             x.comparators[0])).endswith('.file_rules'):
                     infile = cd.pol
             em = emitted(p, sym)
@@ -871,7 +886,14 @@ def check_upgrade(ctx):
             vt = U(v)
             from_old = 'deprecated_rule.name' in vt and (
                 '.pop(' in vt or '[' in vt)
-            removed = '.pop(' in vt or any(
+            removed = any(
+                c.kind == 'test' and not c.pol and isinstance(
+                    t.expand(c.expr), ast.Compare) and isinstance(
+                        t.expand(c.expr).ops[0], ast.In) and U(t.expand(
+                            c.expr).comparators[0]) == pol and U(t.expand(
+                                c.expr).left).endswith(
+                                    'deprecated_rule.name')
+                for c in p.conds[:e.nconds]) or '.pop(' in vt or any(
                 x.kind == 'call' and method_call(x.node, 'pop') and U(
                     method_call(x.node)[0]) == pol for x in p.events) or any(
                         x.kind == 'del' for x in p.events)
